@@ -2,6 +2,7 @@ import UtilModel.RefCount.Props
 import UtilModel.RefCount.ObsOnce
 import UtilModel.RefCount.ObsHeld
 import UtilModel.RefCount.ObsHidden
+import UtilModel.RefCount.ObsEv
 open UtilModel UtilModel.RefCount
 #print axioms UtilModel.accepts_sound
 #print axioms UtilModel.accepted_satisfies
@@ -26,3 +27,5 @@ open UtilModel UtilModel.RefCount
 #print axioms RefCount.items_frame
 #print axioms RefCount.rel_held_obs
 #print axioms RefCount.rel_hidden_obs
+#print axioms RefCount.step_relTh
+#print axioms RefCount.rel_eventually_obs
